@@ -59,8 +59,11 @@ CHECKS['C19'] = dict(
    text='Coq theorems for all passwords and all 2^32 challenges about a Gallina model of login_calculate (word-wise LE load, ntohl, xor, '
         'htonl over the 32-byte zero-padded password, then an RFC 1321 MD5 written from the RFC): equals the documented byte-level '
         'formula md5(pad32(p) xor 8 x be32(s)); reads nothing beyond 32 bytes; the 32-byte block is injective in the padded password and '
-        'in the challenge; raw login uses s+1 / s-1 with explicit wrap and the server/client accept exactly those. RFC test vectors by '
-        'computation. Tied to login.c, md5.c and the call sites in client.c/iodined.c by correspondence with hashlib as third oracle.',
+        'in the challenge; raw login uses s+1 / s-1 with explicit wrap and the server/client accept exactly those; the glue that carries the challenge '
+        'from the server\'s version reply (big-endian bytes 4..7) through the client\'s reassembly expression (re-read from the source term by term: index, '
+        'mask, cast, shift; checked for all 256 patterns per byte incl. C99 shift definedness) into both logins is the identity for every int, so the login the '
+        'client sends is the one the server computes. RFC test vectors by computation. Tied to login.c, md5.c and the real handshake_version / handshake_login / '
+        'send_raw_udp_login / version and login handlers by correspondence with hashlib as third oracle, also under ASan/UBSan.',
    note='Trusts: MD5 model tied to md5.c by correspondence and to the RFC by its 7 test vectors (no collision-resistance claim); signed '
         'overflow of seed+1/seed-1 at INT_MAX/INT_MIN wraps (gcc); Coq kernel; translator; extraction; gcc.',
    technique='Coq proof (byte/word arithmetic characterisation, injectivity of the xor block), differential correspondence + independent MD5',
